@@ -9,7 +9,7 @@ modes
                                           decimal sums that force the float path of const_inequality, polynomial identities with free
                                           variables (real_norm: t = the code's own normal form of t, textbook identities, perturbations),
                                           equivalences of comparisons (real_eq_comparison), huge constants
-Events: {tid, key, src, goal, runs: [{m, o: accepted|rejected|raised, x: exception class, h: [hyps], c: conclusion}]}
+Events: {tid, key, src, goal, acc: [{m, h: [hyps], c: conclusion}] (accepted), rej: [[m, exception class, rejected|raised]]}
 Terms are projected to the applied form of spec/C05_HolArith.tla by reading raw fields only (no Term.__eq__, is_number,
 dest_number, printer or parser: those are under test).  No verdict is computed here.
 """
@@ -132,11 +132,11 @@ def attempt(macro, goal):
     try:
         th = theory.check_proof(prf)          # default trust level (check_level = 0)
     except RecursionError:
-        return {"m": macro, "o": "raised", "x": "RecursionError", "h": [], "c": NONE}
+        return [macro, "RecursionError", "raised"]
     except Exception as e:
         nm = type(e).__name__
-        return {"m": macro, "o": "rejected" if nm in REFUSALS else "raised", "x": nm, "h": [], "c": NONE}
-    return {"m": macro, "o": "accepted", "x": "", "h": [project(h) for h in th.hyps], "c": project(th.prop)}
+        return [macro, nm, "rejected" if nm in REFUSALS else "raised"]
+    return {"m": macro, "h": [project(h) for h in th.hyps], "c": project(th.prop)}
 
 
 class Log:
@@ -154,7 +154,9 @@ class Log:
         self.seen.add((d, only))
         self.tid += 1
         ms = self.macros if only is None else [m for m in self.macros if m in only]
-        ev = {"tid": self.tid, "key": "%s:%s" % (src, d), "src": src, "goal": pg, "runs": [attempt(m, g) for m in ms]}
+        runs = [attempt(m, g) for m in ms]
+        ev = {"tid": self.tid, "key": "%s:%s" % (src, d), "src": src, "goal": pg,
+              "acc": [r for r in runs if isinstance(r, dict)], "rej": [r for r in runs if not isinstance(r, dict)]}
         self.f.write(json.dumps(ev, separators=(",", ":")) + "\n")
         return ev
 
